@@ -299,7 +299,11 @@ func (db *DB) Write(batch *Batch, wo *opt.WriteOptions) error {
 			tr.Discard()
 			return err
 		}
-		return tr.Commit()
+		if err := tr.Commit(); err != nil {
+			tr.Discard()
+			return err
+		}
+		return nil
 	}
 
 	merge := !wo.GetNoWriteMerge() && !db.s.o.GetNoWriteMerge()
